@@ -4,6 +4,7 @@ import (
 	"bytes"
 	"encoding/json"
 	"fmt"
+	"strconv"
 	"strings"
 
 	mxj "github.com/clbanning/mxj/v2"
@@ -275,7 +276,7 @@ func c06Decode(c *Ctx, input string, useNumber bool) (nontrivial bool) {
 func c06Run(c *Ctx) {
 	mustBeDefault(c)
 	bsu := "\\" + "u003c" // the six-character text backslash-u-0-0-3-c, as data
-	c.S.Rule = "encode side: (a) every Map template with <= N nodes over keys {a, k} with leaves {\"s\", \"<&>\", 1.5, true, null} and (b) the structures {k:s}, {s:v}, {k:[s,{j:s}]} for every word s of <= 3 tokens over {<, >, &, backslash, quote, the six-character texts \\u003c \\u003e \\u0026 \\u2028 \\u2029 as data, u003c, U+0001, newline, a, e-acute, U+2028}; encoders Json, JsonIndent (4 prefix/indent pairs incl. both empty), Copy, j2x.MapToJson, default and safe encoding; oracle: valid JSON, NewMapJson(out) deep-equals the original, default mode shows every <,>,& of the data literally, safe mode shows none and is byte-identical to encoding/json; returned bytes retained and re-checked after later calls. decode side: every byte string of <= K tokens over {{, }, [, ], \"a\", :, comma, 1, 1.0, null, true, space, x, form feed, U+00A0} with JsonUseNumber off and on; oracle: NewMapJson accepts exactly when encoding/json's Decoder decodes the first value as an object (or array, wrapped under \"object\") and returns the same value; number text survives with JsonUseNumber. non-trivial = data with <,>,& (encode) / accepted non-empty value (decode)."
+	c.S.Rule = "encode side: (a) every Map template with <= N nodes over keys {a, k} with leaves {\"s\", \"<&>\", 1.5, true, null} and (b) the structures {k:s}, {s:v}, {k:[s,{j:s}]} for every word s of <= 3 tokens over {<, >, &, backslash, quote, the six-character texts \\u003c \\u003e \\u0026 \\u2028 \\u2029 as data, u003c, U+0001, newline, a, e-acute, U+2028}; encoders Json, JsonIndent (4 prefix/indent pairs incl. both empty), Copy, j2x.MapToJson, default and safe encoding; oracle: valid JSON, NewMapJson(out) deep-equals the original, default mode shows every <,>,& of the data literally, safe mode shows none and is byte-identical to encoding/json; returned bytes retained and re-checked after later calls; plus a scale family (strings of 5000 / 70000 bytes with special characters throughout and at 4096-byte boundaries, 300 keys, a list of 1025 maps, nesting depth 100, numbers at the float64 boundaries). decode side: every byte string of <= K tokens over {{, }, [, ], \"a\", :, comma, 1, 1.0, null, true, space, x, form feed, U+00A0} with JsonUseNumber off and on; oracle: NewMapJson accepts exactly when encoding/json's Decoder decodes the first value as an object (or array, wrapped under \"object\") and returns the same value; number text survives with JsonUseNumber. non-trivial = data with <,>,& (encode) / accepted non-empty value (decode)."
 	c.S.Assumptions = []string{"top-level null: nil or empty Map accepted", "an array followed by further non-blank bytes: reject, accept as {object: array}, and accept as the decode of the documented textual wrapping {\"object\": input} are all accepted"}
 	n, k := 4, 5
 	if c.Thorough {
@@ -323,6 +324,12 @@ func c06Run(c *Ctx) {
 			return map[string]interface{}{"k": []interface{}{s, map[string]interface{}{"j": s}}}
 		})
 	})
+	// scale family: strings of 5000 and 70000 bytes with the special characters spread through them (and
+	// placed at 4096-byte boundaries), 300 keys, a list of 1025 members, nesting depth 100, numbers at the
+	// float64 / int64 boundaries; also decoded back from the (large) input buffer with a guarded tail
+	for _, mk := range c06Scale() {
+		encOne(mk)
+	}
 	// decode side
 	toks := []string{"{", "}", "[", "]", `"a"`, ":", ",", "1", "1.0", "null", "true", " ", "x", "\f", "\u00a0"}
 	seqs(toks, k, func(w []string) {
@@ -346,4 +353,50 @@ func c06Run(c *Ctx) {
 	}
 	rt.OrderPolicy = rt.PolicySorted
 	resetOptions()
+}
+
+func c06Scale() []func() map[string]interface{} {
+	var out []func() map[string]interface{}
+	for _, n := range []int{5000, 70000} {
+		n := n
+		out = append(out, func() map[string]interface{} {
+			b := []byte(strings.Repeat("abcdefg ", n/8))
+			for i := 0; i < len(b); i += 97 {
+				b[i] = "<>&\"\\\n"[i/97%6]
+			}
+			for _, at := range []int{4095, 4096, 4097, 8191, 8192} {
+				if at < len(b) {
+					b[at] = '<'
+				}
+			}
+			s := string(b)
+			return map[string]interface{}{"k": s, s[:200]: "v", "l": []interface{}{s, map[string]interface{}{"j": s}}}
+		})
+	}
+	out = append(out, func() map[string]interface{} {
+		m := map[string]interface{}{}
+		for i := 0; i < 300; i++ {
+			m["key<"+strconv.Itoa(i)] = float64(i)
+		}
+		return m
+	}, func() map[string]interface{} {
+		l := make([]interface{}, 1025)
+		for i := range l {
+			l[i] = map[string]interface{}{"i": float64(i), "s": "a&b"}
+		}
+		return map[string]interface{}{"l": l}
+	}, func() map[string]interface{} {
+		var v interface{} = "bottom<"
+		for i := 0; i < 100; i++ {
+			if i%2 == 0 {
+				v = map[string]interface{}{"a": v}
+			} else {
+				v = []interface{}{v, "x"}
+			}
+		}
+		return map[string]interface{}{"d": v}
+	}, func() map[string]interface{} {
+		return map[string]interface{}{"n": []interface{}{1.7976931348623157e308, -1.7976931348623157e308, 5e-324, 9007199254740993.0, 1e21, 1e-7, -0.0, 123456789012345680.0, 0.1}}
+	})
+	return out
 }
